@@ -182,7 +182,7 @@ def run(chk, tmp, prop):
             chk.count((json.dumps(x["cfg"]["deps"]), tuple(x["cfg"]["selected"]), x["cfg"]["failfast"], x["cfg"]["workers"],
                        tuple(x["cfg"]["canfail"]), tuple(x["schedule"])) if nontrivial else None, nontrivial)
             if x["outcome"] == "hang":
-                if prop == "C04":
+                if prop == "C04" or (prop == "C18" and x["cfg"]["extcancel"] >= 0):
                     lostev = [e for e in x["ev"] if e["a"] in ("StartLookup", "CancelLookup") and not e["f"] and e["n"] in x["cfg"]["selected"]]
                     sig = "walker:hang:" + ("lost-wakeup" if lostev else "other")
                     chk.violation(sig, f"Walk never returns: graph deps={x['cfg']['deps']} selected={x['cfg']['selected']} failfast={x['cfg']['failfast']} "
